@@ -4,6 +4,7 @@ import (
 	"bytes"
 	"fmt"
 	"runtime"
+	"time"
 
 	"github.com/hydraide/hydraide/app/core/compressor"
 	"pgregory.net/rapid"
@@ -277,6 +278,7 @@ type c24Cfg struct {
 	headMin      map[int]int // per algorithm: lowest offset any damage step may touch
 	headOnly     bool        // offsets always within the first 13 bytes
 	headBias     bool        // half of the offsets within the first 13 bytes
+	zstdMaxLen   int         // > 0: largest Zstd payload (open finding zstd-stream-decoder-deadlock)
 }
 
 func c24MainCfg(report bool) c24Cfg {
@@ -299,6 +301,10 @@ func c24MainCfg(report bool) c24Cfg {
 	if pbt.Open("C24", "lz4-truncation-clean-eof") {
 		cfg.lz4NoTrunc = true
 		excluded("LZ4: every damage except flips/overwrites/swaps inside the block payload and appended garbage (open finding lz4-truncation-clean-eof)")
+	}
+	if pbt.Open("C24", "zstd-stream-decoder-deadlock") {
+		cfg.zstdMaxLen = 1 << 18
+		excluded("Zstd payloads above 256 KiB (≥ 3 blocks), and Zstd calls that do not return are skipped, not failed (open finding zstd-stream-decoder-deadlock, timing dependent)")
 	}
 	if pbt.Open("C24", "zstd-empty-input") {
 		cfg.zstdNoEmpty = true
@@ -433,6 +439,9 @@ func genC24(cfg c24Cfg) func(t *rapid.T) C24Scenario {
 			s.Alg = cfg.forceAlg
 		}
 		s.Payload = genPayload(t, cfg.maxLen)
+		if s.Alg == 4 && cfg.zstdMaxLen > 0 && s.Payload.Len > cfg.zstdMaxLen {
+			s.Payload.Len = cfg.zstdMaxLen
+		}
 		damageOK := false
 		for _, a := range cfg.damageAlgs {
 			if a == s.Alg {
@@ -485,7 +494,18 @@ func runC24x(s C24Scenario, allocOnly bool) pbt.Outcome {
 		return pbt.Failf("input-mutated", "%s: Compress modified its input", name)
 	}
 	cCopy := append([]byte{}, c...)
-	y, err := comp.Decompress(c)
+	zstdHangOpen := s.Alg == 4 && pbt.Open("C24", "zstd-stream-decoder-deadlock")
+	y, err, hung, pan := decompressWatched(comp, c)
+	if pan != nil {
+		return pbt.Failf("panic", "%s: Decompress(Compress(x)) panicked for %d-byte x: %v", name, len(x), pan)
+	}
+	if hung {
+		if zstdHangOpen {
+			pbt.Note("C24", "a zstd Decompress call did not return (open finding zstd-stream-decoder-deadlock, timing dependent); the case was skipped")
+			return pbt.Outcome{Skip: true}
+		}
+		return pbt.Failf("hang", "%s: Decompress(Compress(x)) did not return within %s for %d-byte x (payload %s), compressed form %d bytes", name, c24HangTimeout, len(x), s.Payload.Kind, len(c))
+	}
 	if err != nil {
 		return pbt.Failf("roundtrip-error", "%s: Decompress(Compress(x)) failed for %d-byte x: %v", name, len(x), err)
 	}
@@ -527,11 +547,25 @@ func runC24x(s C24Scenario, allocOnly bool) pbt.Outcome {
 	if measure {
 		runtime.ReadMemStats(&m0)
 	}
-	z, derr := comp.Decompress(d)
+	z, derr, hung, pan := decompressWatched(comp, d)
+	if hung && zstdHangOpen {
+		pbt.Note("C24", "a zstd Decompress call did not return (open finding zstd-stream-decoder-deadlock, timing dependent); the case was skipped")
+		return pbt.Outcome{Skip: true}
+	}
+	if pan != nil {
+		return pbt.Failf("panic", "%s: Decompress panicked on a %d-byte damaged input %s (damage %s): %v", name, len(d), hx(d), damageString(s.Damage), pan)
+	}
+	if hung {
+		return pbt.Failf("hang", "%s: Decompress of a %d-byte damaged input %x… did not return within %s (original form %d bytes, payload %s/%d, damage %s)",
+			name, len(d), d[:min(len(d), 48)], c24HangTimeout, len(c), s.Payload.Kind, len(x), damageString(s.Damage))
+	}
 	if measure {
 		runtime.ReadMemStats(&m1)
 		if delta := m1.TotalAlloc - m0.TotalAlloc; delta > 1<<30 {
-			return pbt.Failf("alloc-bomb", "%s: Decompress of a %d-byte damaged input %s (original form %s, damage %s) allocated %d bytes", name, len(d), hx(d), hx(c), damageString(s.Damage), delta)
+			// An allocation bound for decompression is NOT part of the property statement (C24 only demands
+			// "error or the original data"): counted as a diagnostic, never reported as a violation.
+			pbt.Counter("C24", "decompress_allocated_over_1GiB_for_small_damaged_input", 1)
+			pbt.Note("C24", "%s: Decompress of a %d-byte damaged input %s (damage %s) allocated %d bytes", name, len(d), hx(d), damageString(s.Damage), delta)
 		}
 	}
 	if allocOnly {
@@ -559,6 +593,38 @@ func runC24x(s C24Scenario, allocOnly bool) pbt.Outcome {
 	}
 	return pbt.Failf("wrong-data", "%s: damaged input (%d bytes, original compressed form %d bytes, damage %s) decompressed to DIFFERENT data with a nil error: got %d bytes %s, original %d bytes %s",
 		name, len(d), len(c), damageString(s.Damage), len(z), hx(z), len(x), hx(x))
+}
+
+// c24HangTimeout bounds one Decompress call of a damaged input (the largest
+// inputs decompress in milliseconds; the bound is generous for loaded machines).
+const c24HangTimeout = 30 * time.Second
+
+// decompressWatched runs Decompress in its own goroutine so that a call that
+// never returns is reported instead of stalling the whole check. (The blocked
+// goroutine is leaked; the run ends with the failure anyway.)
+func decompressWatched(comp compressor.Compressor, d []byte) (z []byte, err error, hung bool, pan any) {
+	type res struct {
+		z   []byte
+		err error
+		pan any
+	}
+	ch := make(chan res, 1)
+	go func() {
+		var r res
+		defer func() {
+			if p := recover(); p != nil {
+				r.pan = p
+			}
+			ch <- r
+		}()
+		r.z, r.err = comp.Decompress(d)
+	}()
+	select {
+	case r := <-ch:
+		return r.z, r.err, false, r.pan
+	case <-time.After(c24HangTimeout):
+		return nil, nil, true, nil
+	}
 }
 
 func damageString(ds []Corruption) string {
